@@ -25,9 +25,10 @@ class Outcome(object):
 
 class Contract(object):
     """Base class of sidecar contracts.  A contract builds the symbolic pre-state, calls the REAL function
-    through the engine, and states its clauses over (pre-state, outcome, post-state)."""
+    through the engine, and states its clauses over (pre-state, outcome, post-state).  The same clauses are
+    evaluated natively on concrete inputs (cover cross-check, replay, bounded stand-ins)."""
     name = None           # qualified name of the function under contract
-    props = ()
+    key = None            # registry key: contracts.get(key, src, T) rebuilds this contract (used by replay files)
 
     def setup(self, E):
         raise NotImplementedError
@@ -39,20 +40,37 @@ class Contract(object):
         """dict clause name -> formula (python bool / z3 Bool); may fork through E.decide"""
         raise NotImplementedError
 
-    # native side (cover cross-check and replay) ------------------------------------------------------
-    def native_run(self, model, st):
-        """run the real function natively on the concretised model; returns ('return', value)|('raise', cls), ctx"""
+    # native side ---------------------------------------------------------------------------------------
+    def concretise(self, model, st):
+        """model -> plain python inputs (dict), or None when there is no native harness"""
         return None
 
-    def native_clauses(self, model, st, native_out, ctx):
-        """dict clause name -> bool, evaluated natively on the real pre/post state (same spec text)"""
-        return None
+    def native_eval(self, inputs):
+        """run the REAL function natively on `inputs`; returns (('return', v)|('raise', cls), {clause: bool})"""
+        raise NotImplementedError
 
-    def describe_input(self, model, st):
-        return None
+    def describe(self, inputs):
+        return ", ".join("%s=%s" % (k, concretise.py_repr(v)) for k, v in inputs.items())
 
-    def replay_script(self, model, st, clause):
-        return None
+    def replay_script(self, inputs, clause):
+        if self.key is None:
+            return None
+        return GENERIC_REPLAY % {"key": self.key, "inputs": concretise.py_repr(inputs), "clause": clause}
+
+
+GENERIC_REPLAY = r'''
+import contracts
+from pyvc.source import Source
+src = Source(os.environ.get("VERIF_REPO", "/repo")); src.import_native()
+c = contracts.get(%(key)r, src)
+inputs = %(inputs)s
+nat, clauses = c.native_eval(inputs)
+print("contract:", c.name); print("inputs:  ", c.describe(inputs))
+print("outcome: ", nat[0], getattr(nat[1], "__name__", repr(nat[1])))
+print("clauses: ", clauses)
+if clauses.get(%(clause)r) is False: REPRODUCED("clause %%s of %%s is violated" %% (%(clause)r, c.name))
+NOT_REPRODUCED()
+'''
 
 
 def run_contract(E, contract, max_paths=4000):
@@ -68,7 +86,7 @@ def run_contract(E, contract, max_paths=4000):
     return E.explore(thunk, max_paths=max_paths)
 
 
-def verify(run, E, contract, prefix=None, tier=None, crosscheck=True, known=None):
+def verify(run, E, contract, prefix=None, tier=None, crosscheck=True, known=None, skip=(), only=None):
     """Generate and discharge the obligations of `contract`.  Returns dict clause -> status."""
     tier = tier or run.tier
     name = contract.name
@@ -84,7 +102,7 @@ def verify(run, E, contract, prefix=None, tier=None, crosscheck=True, known=None
     clauses = []
     for p in paths:
         for c in p.value[1]:
-            if c not in clauses:
+            if c not in clauses and c not in skip and (only is None or c in only):
                 clauses.append(c)
     results = {}
     # ---- sub-goals ------------------------------------------------------------------------------------
@@ -153,24 +171,24 @@ def cover_paths(run, E, contract, paths):
         if p.havoc:
             continue
         try:
-            res = contract.native_run(r.model, st)
+            inputs = contract.concretise(r.model, st)
+            if inputs is None:
+                continue
+            nat, ncl = contract.native_eval(inputs)
         except Exception as ex:  # concretisation problems are not verdicts
-            run.notes.append("cover of %s could not be concretised: %r" % (contract.name, ex))
+            run.notes.append("cover of %s could not be replayed: %r" % (contract.name, ex))
             continue
-        if res is None:
-            continue
-        nat, ctx = res
         run.crosscheck["inputs"] += 1
         sym_kind = out.kind
         sym_cls = out.exc_cls
         ok = (nat[0] == sym_kind) and (sym_kind == "return" or nat[1] is sym_cls or
                                        (isinstance(nat[1], type) and sym_cls is not None and nat[1].__name__ == sym_cls.__name__))
         if ok and sym_kind == "return" and hasattr(contract, "native_result_matches"):
-            ok = contract.native_result_matches(r.model, st, out, nat, ctx)
+            ok = contract.native_result_matches(r.model, st, out, nat, inputs)
         if not ok:
             run.crosscheck["mismatches"] += 1
             run.faults.append("engine cross-check mismatch in %s: symbolic path %s but CPython gives %s on %s"
-                              % (contract.name, out, nat, contract.describe_input(r.model, st)))
+                              % (contract.name, out, _nat(nat), contract.describe(inputs)))
 
 
 def _confirm(run, contract, model, st, clause, out, path):
@@ -178,22 +196,21 @@ def _confirm(run, contract, model, st, clause, out, path):
     if path.havoc:
         return ("havoc", None, None)
     try:
-        res = contract.native_run(model, st)
+        inputs = contract.concretise(model, st)
     except Exception as ex:
         return ("noinput", "counter-model could not be concretised (%r)" % (ex,), None)
-    if res is None:
+    if inputs is None:
         return ("noinput", "no native harness for this contract", None)
-    nat, ctx = res
     try:
-        nc = contract.native_clauses(model, st, nat, ctx)
+        nat, nc = contract.native_eval(inputs)
     except Exception as ex:
-        return ("noinput", "native clause evaluation failed (%r)" % (ex,), None)
-    desc = contract.describe_input(model, st)
+        return ("noinput", "native evaluation failed (%r) on %s" % (ex, contract.describe(inputs)), None)
+    desc = contract.describe(inputs)
     if nc is None or clause not in nc:
         return ("noinput", "clause has no native evaluator; input %s" % (desc,), None)
     if nc[clause] is False:
         return ("confirmed", "%s -> %s violates clause '%s'" % (desc, _nat(nat), clause),
-                contract.replay_script(model, st, clause))
+                contract.replay_script(inputs, clause))
     return ("fault", "input %s: CPython gives %s and clause '%s' holds natively" % (desc, _nat(nat), clause), None)
 
 
@@ -216,7 +233,8 @@ def native_call(fn, *args, **kwargs):
 class ValidateContract(Contract):
     def __init__(self, src, key, spec, fields, tables, consts=None, spec_name=None, build=None, method="validate"):
         self.src = src
-        self.key = key
+        self.key_cls = key
+        self.key = "valid:%s.%s" % key if method == "validate" else None
         self.spec = spec
         self.fields = list(fields)
         self.T = tables
@@ -227,7 +245,7 @@ class ValidateContract(Contract):
         self.method = method
 
     def setup(self, E):
-        o = E.new_obj(self.key, "x")
+        o = E.new_obj(self.key_cls, "x")
         st = {"o": o, "sv": {}}
         for k, v in self.consts.items():
             o.fields[k] = v(E, o) if callable(v) else v
@@ -255,11 +273,11 @@ class ValidateContract(Contract):
                 "frame": frame}
 
     # native ---------------------------------------------------------------------------------------------------
-    def _values(self, model, st):
+    def concretise(self, model, st):
         return dict((f, concretise.value_of(model, v)) for f, v in st["sv"].items())
 
     def _real(self, vals):
-        cls = self.src.native_class(self.key)
+        cls = self.src.native_class(self.key_cls)
         real = object.__new__(cls)
         for k, v in self.consts.items():
             if not callable(v) and not isinstance(v, Obj):
@@ -270,35 +288,22 @@ class ValidateContract(Contract):
             setattr(real, f, v)
         return real
 
-    def native_run(self, model, st):
-        vals = self._values(model, st)
-        real = self._real(vals)
+    def native_eval(self, inputs):
         import copy
+        real = self._real(copy.deepcopy(inputs))
         before = copy.deepcopy(dict((f, getattr(real, f)) for f in self.fields))
         nat = native_call(getattr(real, self.method))
-        return nat, {"real": real, "vals": vals, "before": before}
-
-    def native_clauses(self, model, st, nat, ctx):
-        pre = self._real(ctx["vals"])
+        pre = self._real(copy.deepcopy(inputs))
         valid = bool(self.spec(self.T, pre))
-        after = dict((f, getattr(ctx["real"], f)) for f in self.fields)
-        frame = all(_same(after[f], ctx["before"][f]) for f in self.fields)
+        after = dict((f, getattr(real, f)) for f in self.fields)
+        frame = all(_same(after[f], before[f]) for f in self.fields)
         if nat[0] == "return":
-            return {"returns_only_if_valid": valid, "frame": frame}
-        return {"raises_only_if_invalid": not valid,
-                "raises_only_TypeError_ValueError": nat[1] in (TypeError, ValueError), "frame": frame}
+            return nat, {"returns_only_if_valid": valid, "frame": frame}
+        return nat, {"raises_only_if_invalid": not valid,
+                     "raises_only_TypeError_ValueError": nat[1] in (TypeError, ValueError), "frame": frame}
 
-    def describe_input(self, model, st):
-        vals = self._values(model, st)
-        return "%s(%s)" % (self.key[1], ", ".join("%s=%s" % (k, concretise.py_repr(v)) for k, v in vals.items()))
-
-    def replay_script(self, model, st, clause):
-        vals = self._values(model, st)
-        return VALIDATE_REPLAY % {"module": self.key[0], "cls": self.key[1], "spec": self.spec_name,
-                                  "vals": "{" + ", ".join("%r: %s" % (k, concretise.py_repr(v)) for k, v in vals.items()) + "}",
-                                  "consts": repr(dict((k, v) for k, v in self.consts.items()
-                                                      if not callable(v) and not isinstance(v, Obj))),
-                                  "clause": clause, "method": self.method}
+    def describe(self, inputs):
+        return "%s(%s)" % (self.key_cls[1], ", ".join("%s=%s" % (k, concretise.py_repr(v)) for k, v in inputs.items()))
 
 
 def _same(a, b):
@@ -308,28 +313,3 @@ def _same(a, b):
         return a is b
 
 
-VALIDATE_REPLAY = r'''
-import importlib
-import productmd.%(module)s as M
-from pyvc.source import Source
-from spec import fields as F
-src = Source(os.environ.get("VERIF_REPO", "/repo")); mods = src.import_native()
-T = F.Tables(mods)
-vals = %(vals)s
-real = object.__new__(M.%(cls)s)
-for k, v in %(consts)s.items(): setattr(real, k, v)
-for k, v in vals.items(): setattr(real, k, v)
-valid = bool(F.%(spec)s(T, real))
-try:
-    real.%(method)s(); out = ("return", None)
-except Exception as ex:
-    out = ("raise", type(ex))
-print("fields:", vals); print("documented rules hold:", valid, " %(method)s():", out)
-clause = %(clause)r
-bad = {"returns_only_if_valid": out[0] == "return" and not valid,
-       "raises_only_if_invalid": out[0] == "raise" and valid,
-       "raises_only_TypeError_ValueError": out[0] == "raise" and out[1] not in (TypeError, ValueError),
-       "frame": False}[clause]
-if bad: REPRODUCED("%(cls)s.%(method)s clause %%s violated" %% clause)
-NOT_REPRODUCED()
-'''
